@@ -102,22 +102,52 @@ def seeded_cache_fields(chk):
     it = Interp(str(chk.src))
     m = it.module("dep_logic.markers.single")
     cache_fields = set()
+    by_class = {}
     for name, v in m.ns.items():
         if isinstance(v, ClassInfo) and v.dc is not None:
             for f in v.fields:
                 if not f[2] and f[0].startswith("_"):
                     cache_fields.add(f[0])
-    chk.require(cache_fields, "no private compare=False cache field found (anchor MarkerExpression._specifier moved?)")
+                    by_class.setdefault(v.name, {"cache": set(), "compared": {g[0] for g in v.all_fields() if g[2]}})["cache"].add(f[0])
+    if not cache_fields:
+        chk.notes.append("R10.7: no private compare=False cache field exists in markers/single.py any more; the clause is vacuous")
+        chk.instance("R10.7", 2)
+        return
     sites = 0
     for rel, tree in iter_sources(chk):
         mod = ("dep_logic." + rel[:-3].replace("/", ".")).replace(".__init__", "")
         for q, fn in functions(tree):
             params = {a.arg for a in fn.args.posonlyargs + fn.args.args + fn.args.kwonlyargs}
             for n in ast.walk(fn):
+                if isinstance(n, ast.Call) and ast.unparse(n.func) in ("replace", "dataclasses.replace") and n.args and isinstance(n.args[0], ast.Name):
+                    # dataclasses.replace(obj, compared_field=...) copies every other init field — including a lazily filled cache field
+                    # that was computed from the OLD compared fields
+                    who = n.args[0].id
+                    cls = None
+                    if who == "self" and "." in q:
+                        cls = q.split(".")[0]
+                    else:
+                        for a in fn.args.posonlyargs + fn.args.args + fn.args.kwonlyargs:
+                            if a.arg == who and a.annotation is not None:
+                                cls = norm(ast.unparse(a.annotation)).strip("'\"").split(".")[-1].split("[")[0]
+                    info = by_class.get(cls)
+                    if info:
+                        sites += 1
+                        given = {kw.arg for kw in n.keywords if kw.arg}
+                        stale = sorted(info["cache"] - given)
+                        if (given & info["compared"]) and stale and not any(kw.arg is None for kw in n.keywords):
+                            chk.fail("R10.7", f"{mod}:{construct_name(q, fn)}:replace-copies-cache:{stale[0]}",
+                                     f"`{norm(ast.unparse(n))[:90]}` in {q} changes compared field(s) {sorted(given & info['compared'])} of a {cls} but copies its lazily "
+                                     f"filled cache field `{stale[0]}` (outside __eq__/__hash__): whether the copy is stale depends on what was computed before")
+                        else:
+                            chk.ok("R10.7", key=(mod, q, "replace", n.lineno))
                 if isinstance(n, ast.Call):
                     for kw in n.keywords:
                         if kw.arg in cache_fields:
                             sites += 1
+                            if isinstance(kw.value, ast.Constant) and kw.value.value is None:
+                                chk.ok("R10.7", key=(mod, q, n.lineno, "reset"))
+                                continue
                             okk = q.split(".")[-1] == "from_specifier" and isinstance(kw.value, ast.Name) and kw.value.id in params
                             if okk:
                                 chk.ok("R10.7", key=(mod, q, n.lineno))
